@@ -9,6 +9,7 @@ import (
 	"fmt"
 	"hash/crc32"
 	"sort"
+	"strings"
 
 	"github.com/klauspost/compress/zstd"
 	"github.com/pierrec/lz4/v4"
@@ -311,17 +312,46 @@ func ConformanceLayout(features map[string]bool) Layout {
 	return l
 }
 
+// CodecName is the compression string written into the file for a layout's compression kind. Kinds with
+// a suffix are other legal ways to use the same codec: "zstd-zeroframe" (a proper empty frame for empty
+// input, as the reference zstd library emits), "zstd-multi" (the data split over two concatenated frames),
+// "zstd-skippable" (a skippable frame after the data frame), "zstd-nocrc" (no content checksum).
+func CodecName(kind string) string {
+	if i := strings.IndexByte(kind, '-'); i >= 0 {
+		return kind[:i]
+	}
+	return kind
+}
+
 func compress(kind string, in []byte) ([]byte, error) {
-	switch kind {
-	case "":
-		return in, nil
-	case "zstd":
-		e, err := zstd.NewWriter(nil)
+	zenc := func(data []byte, opts ...zstd.EOption) ([]byte, error) {
+		e, err := zstd.NewWriter(nil, opts...)
 		if err != nil {
 			return nil, err
 		}
 		defer e.Close()
-		return e.EncodeAll(in, nil), nil
+		return e.EncodeAll(data, nil), nil
+	}
+	switch kind {
+	case "":
+		return in, nil
+	case "zstd":
+		return zenc(in)
+	case "zstd-zeroframe":
+		return zenc(in, zstd.WithZeroFrames(true))
+	case "zstd-nocrc":
+		return zenc(in, zstd.WithEncoderCRC(false), zstd.WithZeroFrames(true))
+	case "zstd-multi":
+		a, err := zenc(in[:len(in)/2], zstd.WithZeroFrames(true))
+		if err != nil {
+			return nil, err
+		}
+		b, err := zenc(in[len(in)/2:], zstd.WithZeroFrames(true))
+		return append(a, b...), err
+	case "zstd-skippable":
+		a, err := zenc(in, zstd.WithZeroFrames(true))
+		// skippable frame: magic 0x184D2A5x, little-endian size, that many bytes
+		return append(a, 0x53, 0x2a, 0x4d, 0x18, 5, 0, 0, 0, 's', 'k', 'i', 'p', '!'), err
 	case "lz4":
 		var out bytes.Buffer
 		w := lz4.NewWriter(&out)
@@ -466,7 +496,7 @@ func Encode(w *wl.Workload, l Layout) ([]byte, int, error) {
 			encErr = err
 			return
 		}
-		h := ChunkHdr{UncompressedSize: uint64(len(c.b.Buf)), Compression: comp}
+		h := ChunkHdr{UncompressedSize: uint64(len(c.b.Buf)), Compression: CodecName(comp)}
 		if c.nMsgs > 0 {
 			h.Start, h.End = c.start, c.end
 		}
@@ -476,7 +506,7 @@ func Encode(w *wl.Workload, l Layout) ([]byte, int, error) {
 		beforeUnit()
 		off := b.Len()
 		length := b.Chunk(h, payload)
-		ci := &ChunkIndex{Start: h.Start, End: h.End, Offset: off, Length: length, Compression: comp, CompressedSize: uint64(len(payload)), UncompressedSize: h.UncompressedSize}
+		ci := &ChunkIndex{Start: h.Start, End: h.End, Offset: off, Length: length, Compression: CodecName(comp), CompressedSize: uint64(len(payload)), UncompressedSize: h.UncompressedSize}
 		if l.MessageIndex {
 			for _, ch := range c.order {
 				if !l.IndexAllChannels && len(c.idx[ch]) == 0 {
